@@ -121,9 +121,169 @@ def check_table(ctx, rid, relpath, f, results, classify, table, w, proto):
         ctx.emit('C09-R2', ok, relpath, f, f'{proto} {kind} arm mirror symmetry: {detail}', key=f'{proto}:{kind}:mirror', what=f'{proto} {kind} arm: strand mirror symmetry broken')
 
 
+def _set_site_by_interpretation(ss):
+    from ..consteval import run_function, Raised, Unfoldable
+    try:
+        for valid in (True, False, None):
+            for inv in (False, True):
+                metas = []
+
+                def hook(ev, call, env, metas=metas):
+                    d = dotted(call.func) or ''
+                    if d == 'self.set_meta':
+                        metas.append(tuple(ev.ev(x, env) for x in call.args))
+                        return None
+                    if d == 'self.set_strand':
+                        return None
+                    return NotImplemented
+                out = {}
+                kw = {'site_chrom': 'chr1', 'site_pos': 77, 'site_strand': True}
+                if valid is not None:
+                    kw['valid'] = valid
+                run_function(ss, ['<self>'], kw, env={'self.invert_strand': inv, 'self.found_valid_site': False}, call_hook=hook, out_scope=out, budget=5000)
+                fv = out.get('self.found_valid_site', False)
+                ds = [m for m in metas if m and m[0] == 'DS']
+                want_valid = valid is not False
+                if bool(fv) != want_valid or (want_valid and ds != [('DS', 77)]) or (not want_valid and ds):
+                    return (False, f'valid={valid}: found_valid_site={fv}, DS stores {ds}')
+                if out.get('self.site_location') != ('chr1', 77):
+                    return (False, f'site_location = {out.get("self.site_location")} for site (chr1, 77)')
+    except (Unfoldable, Raised):
+        return None
+    except Exception:
+        return None
+    return (True, None)
+
+
+def nla_site_model(ctx):
+    """NlaIIIFragment.identify_site (overhang layout) run by the abstract interpreter on model reads: both strands x soft clip at the read start present / absent x
+    cigar processing on / off x check_motif x allow_cycle_shift x what the two ends of the read show (CATG, the cycle-shifted motif, nothing).  Required: with the
+    motif (or without checking) the recorded site is the clip-corrected read start +0 / -4, with the shifted motif and cycle shift allowed -1 / -3, otherwise the site
+    is recorded invalid at +0 / -4 and None is returned.  (ok, cases, witness), or None when outside the interpreted subset.  Cached per run."""
+    if hasattr(ctx, '_nla_site_model'):
+        return ctx._nla_site_model
+    from ..consteval import run_function, Raised, Unfoldable, LocalFn
+    from .C04 import module_consts
+    from ..consteval import TOP
+    ctx._nla_site_model = None
+    f = ctx.fn(FRAG_NLA, 'NlaIIIFragment.identify_site')
+    mod = ctx.ix.module(FRAG_NLA)
+    mc = {k: v for k, v in module_consts(mod, ctx.ix).items() if v is not TOP}
+    helpers = {q: d[0] for q, d in mod.defs.items() if '.' not in q and isinstance(d[0], ast.FunctionDef)}
+    n = 0
+    # what an end of the read shows (as its first four / last four bases): the full motif, the cycle-shifted motif, three quarters of the motif (must not count),
+    # a near miss of the shifted motif (must not count), nothing
+    ends = {'full': ('CATG', 'CATG'), 'shift': ('ATGA', 'ACAT'), 'near': ('CATT', 'GATG'), 'near2': ('GATG', 'CATT'), 'nearshift': ('ATTA', 'ATAT'), 'none': ('TTTT', 'TTTT')}
+    try:
+        for rev, clip, noumi, chk, shift, own, far in itertools.product((False, True), (0, 3), (False, True), (True, False), (False, True), ('full', 'shift', 'near', 'near2', 'nearshift', 'none'), ('full', 'shift', 'none')):
+            n += 1
+            head = ends[own][0] if not rev else ends[far][0]
+            tail = ends[own][1] if rev else ends[far][1]
+            seq = head + 'GGGG' + tail
+            cig = ([(4, clip)] if clip and not rev else []) + [(0, 50)] + ([(4, clip)] if clip and rev else [])
+            calls = []
+
+            def hook(ev, call, env, calls=calls):
+                d = dotted(call.func) or ''
+                if d in ('self.set_site', 'self.set_recognized_sequence', 'self.set_rejection_reason'):
+                    kw = {k_.arg: ev.ev(k_.value, env) for k_ in call.keywords}
+                    calls.append((d[5:], [ev.ev(x, env) for x in call.args], kw))
+                    return None
+                if isinstance(call.func, ast.Name) and call.func.id in helpers:
+                    return run_function(helpers[call.func.id], [ev.ev(x, env) for x in call.args], {k_.arg: ev.ev(k_.value, env) for k_ in call.keywords}, env=dict(mc), budget=20000, call_hook=hook)
+                return NotImplemented
+            env = dict(mc)
+            env.update({'self.reads': ['<R1>', '<R2>'], 'self.no_overhang': False, 'self.check_motif': chk, 'self.allow_cycle_shift': shift, 'self.no_umi_cigar_processing': noumi,
+                        'self.found_valid_site': False, 'R1.is_unmapped': False, 'R1.is_reverse': rev, 'R1.seq': seq, 'R1.query_sequence': seq, 'R1.reference_start': 100, 'R1.reference_end': 150,
+                        'R1.reference_name': 'chr1', 'R1.cigartuples': cig, 'self.cut_location_offset': -4})
+            out = {}
+            ret = run_function(f, ['<self>'], env=env, call_hook=hook, budget=20000, out_scope=out)
+            sites = [c for c in calls if c[0] == 'set_site']
+            anchor_ = (150 + (clip if not noumi else 0)) if rev else (100 - (clip if not noumi else 0))
+            if not chk or own == 'full':
+                want = (anchor_ + (-4 if rev else 0), True)
+            elif shift and own == 'shift':
+                want = (anchor_ + (-3 if rev else -1), True)
+            else:
+                want = (anchor_ + (-4 if rev else 0), False)
+            case = {'reverse': rev, 'soft clip at the read start': clip, 'no_umi_cigar_processing': noumi, 'check_motif': chk, 'allow_cycle_shift': shift, 'own end shows': own, 'other end shows': far}
+            if len(sites) != 1:
+                ctx._nla_site_model = (False, n, dict(case, problem=f'set_site called {len(sites)} times'))
+                return ctx._nla_site_model
+            kw = dict(sites[0][2])
+            for name_, val_ in zip(('site_chrom', 'site_pos', 'site_strand', 'valid'), sites[0][1]):
+                kw[name_] = val_
+            got = (kw.get('site_pos'), kw.get('valid', True) is not False)
+            if got != want or kw.get('site_strand') != rev or kw.get('site_chrom') != 'chr1':
+                ctx._nla_site_model = (False, n, dict(case, problem=f'site recorded as (position, valid) = {got} on strand {kw.get("site_strand")}, expected {want} (clip-corrected read start {anchor_})'))
+                return ctx._nla_site_model
+            if want[1] and (not isinstance(ret, tuple) or tuple(ret) != ('chr1', want[0])):
+                ctx._nla_site_model = (False, n, dict(case, problem=f'returns {ret!r}, expected the site (chr1, {want[0]})'))
+                return ctx._nla_site_model
+            if not want[1] and ret is not None:
+                ctx._nla_site_model = (False, n, dict(case, problem=f'a fragment without the motif returns {ret!r} (expected None: rejected)'))
+                return ctx._nla_site_model
+    except (Unfoldable, Raised):
+        return None
+    except Exception:
+        return None
+    ctx._nla_site_model = (True, n, None)
+    return ctx._nla_site_model
+
+
+def _nla_model_or_symbolic(ctx, rid, symbolic):
+    """the symbolic reading of identify_site decides; where it cannot follow a restructured method (site offsets that are not constants to it, anchors not found) the
+    interpreted model of the method decides the NlaIII obligations instead"""
+    from ..core import Ctx, VIOLATED, UNDECIDED
+    sub = Ctx(ctx.ix, 'C09', ctx.tier)
+    if hasattr(ctx, 'results_nla'):
+        sub.results_nla = ctx.results_nla
+    err = None
+    try:
+        symbolic(sub)
+    except AnalysisError as e_:
+        err = e_
+    except Exception as e_:
+        err = AnalysisError(f'symbolic reading failed ({type(e_).__name__}: {e_})')
+    for k_, v_ in sub.counters.items():
+        ctx.counters[k_] = (ctx.counters.get(k_, set()) | v_) if isinstance(v_, set) else ctx.counters.get(k_, 0) + v_
+    for k_, v_ in getattr(sub, 'exhaustive', {}).items():
+        ctx.exhaustive[k_] = v_
+    for attr in ('results_nla',):
+        if hasattr(sub, attr):
+            setattr(ctx, attr, getattr(sub, attr))
+    ctx.notes.extend(getattr(sub, 'notes', []))
+    open_ = [o for o in sub.obligations if o.status in (VIOLATED, UNDECIDED) and 'NlaIII' in o.construct and 'set_site-valid' not in o.construct]
+    if err is None and not open_:
+        ctx.obligations.extend(sub.obligations)
+        return
+    m = nla_site_model(ctx)
+    if m is None:
+        ctx.obligations.extend(sub.obligations)
+        if err is not None:
+            raise err
+        return
+    ok, n, wit = m
+    f = ctx.fn(FRAG_NLA, 'NlaIIIFragment.identify_site')
+    ctx.counters['interpreted_cases'] = ctx.counters.get('interpreted_cases', 0) + n
+    if ok:
+        ctx.obligations.extend([o for o in sub.obligations if o not in open_])
+        ctx.emit(rid, True, FRAG_NLA, f, f'NlaIII identify_site interpreted on {n} model reads (strand x soft clip x cigar processing x check_motif x allow_cycle_shift x motif at either end): the recorded site is the '
+                 f'clip-corrected read start +0 / -4 (cycle shift -1 / -3), a read without the motif is recorded invalid and rejected (the symbolic reading did not follow {len(open_)} construct(s) of the restructured method)',
+                 key='NlaIII:site-model')
+    else:
+        ctx.obligations.extend(sub.obligations)
+        ctx.emit(rid, False, FRAG_NLA, f, f'NlaIII identify_site on a model read: {wit.get("problem")} - {({k_: v_ for k_, v_ in wit.items() if k_ != "problem"})}', key='NlaIII:site-model', witness=wit,
+                 what='NlaIII identify_site: ' + str(wit.get('problem')))
+
+
 @rule('C09', 'C09-R1', 'NlaIII: on every path the site is the clip-corrected read start (+0 forward, -4 reverse; cycle shift -1 / -3), '
                        'derived as linear forms over reference_start/end and the soft-clip lengths')
 def r1(ctx):
+    _nla_model_or_symbolic(ctx, 'C09-R1', _r1_symbolic)
+
+
+def _r1_symbolic(ctx):
     space = [('REV', (False, True)), ('NOUMI', (False, True)), ('HEADCLIP', (False, True)), ('TAILCLIP', (False, True))]
     f, res = run_protocol(ctx, FRAG_NLA, 'NlaIIIFragment', {'self.no_overhang': False}, space)
     ctx.info('NlaIII: the no_overhang arm (site found by scanning the reference, data dependent offset) is scoped out by its guard')
@@ -142,6 +302,10 @@ def r1(ctx):
 
 @rule('C09', 'C09-R2', 'mirror symmetry: for every arm the reverse offset equals -w - forward offset (w = 4 for the CATG 4-mer, 1 for the MNase base)')
 def r2(ctx):
+    _nla_model_or_symbolic(ctx, 'C09-R2', _r2_symbolic)
+
+
+def _r2_symbolic(ctx):
     # emitted by check_table of R1 / R4 under this rule id; here: the motif guards are mirrored too
     f = ctx.fn(FRAG_NLA, 'NlaIIIFragment.identify_site')
     motif = {}
@@ -203,6 +367,10 @@ def r2(ctx):
 @rule('C09', 'C09-R3', 'a fragment without the motif at its start is rejected, not assigned a site: on the fallback path the site is '
                        'recorded with valid=False, the method returns None and found_valid_site stays False')
 def r3(ctx):
+    _nla_model_or_symbolic(ctx, 'C09-R3', _r3_symbolic)
+
+
+def _r3_symbolic(ctx):
     space = [('REV', (False, True)), ('NOUMI', (False,)), ('HEADCLIP', (False,)), ('TAILCLIP', (False,))]
     f, res = run_protocol(ctx, FRAG_NLA, 'NlaIIIFragment', {'self.no_overhang': False, 'self.check_motif': True, 'not self.check_motif': False,
                                                            "forward_motif == 'CATG'": False, "rev_motif == 'CATG'": False, 'self.allow_cycle_shift': False}, space)
@@ -219,6 +387,15 @@ def r3(ctx):
     ss = ctx.fn(FRAG_NLA, 'NlaIIIFragment.set_site')
     vp = 'valid'
     pos_p = ss.args.args[2].arg
+    sem = _set_site_by_interpretation(ss)
+    if sem is not None:
+        ctx.emit('C09-R3', sem[0], FRAG_NLA, ss, 'set_site (interpreted): valid=False leaves found_valid_site False and writes no DS tag; valid=True sets both' if sem[0] else f'set_site (interpreted): {sem[1]}',
+                 key='NlaIII:set_site-valid')
+        first = f.body[0]
+        ctx.emit('C09-R3', src(first) == 'self.found_valid_site = False', FRAG_NLA, first, 'identify_site starts from found_valid_site = False', key='NlaIII:initial-invalid', nontrivial=False)
+        st = {r['strand_src'] for r in getattr(ctx, 'results_nla', [])} or {None}
+        ctx.emit('C09-R3', st == {'R1.is_reverse'}, FRAG_NLA, f, f'site strand argument on all NlaIII paths: {sorted(map(str, st))}', key='NlaIII:strand-arg', nontrivial=False)
+        return
     ok = True
     for valid in (True, False):
         rs = [r for r in explore(ss.body, mk_atoms({vp: valid})) if r['kind'] in ('fall', 'return')]
